@@ -52,10 +52,18 @@ static char* arena_strdup_thrift(carquet_arena_t* arena, thrift_decoder_t* dec) 
     int32_t len;
     const uint8_t* data = thrift_read_binary(dec, &len);
     if (!data && len == 0) {
-        return carquet_arena_strdup(arena, "");
+        char* empty = carquet_arena_strdup(arena, "");
+        if (!empty && dec->status == CARQUET_OK) {
+            dec->status = CARQUET_ERROR_OUT_OF_MEMORY;
+        }
+        return empty;
     }
     if (!data) return NULL;
-    return carquet_arena_strndup(arena, (const char*)data, (size_t)len);
+    char* copy = carquet_arena_strndup(arena, (const char*)data, (size_t)len);
+    if (!copy && dec->status == CARQUET_OK) {
+        dec->status = CARQUET_ERROR_OUT_OF_MEMORY;  /* do not report OK with a NULL string */
+    }
+    return copy;
 }
 
 static uint8_t* arena_bindup_thrift(carquet_arena_t* arena, thrift_decoder_t* dec, int32_t* out_len) {
@@ -63,7 +71,11 @@ static uint8_t* arena_bindup_thrift(carquet_arena_t* arena, thrift_decoder_t* de
     const uint8_t* data = thrift_read_binary(dec, &len);
     *out_len = len;
     if (!data || len == 0) return NULL;
-    return carquet_arena_memdup(arena, data, (size_t)len);
+    uint8_t* copy = carquet_arena_memdup(arena, data, (size_t)len);
+    if (!copy && dec->status == CARQUET_OK) {
+        dec->status = CARQUET_ERROR_OUT_OF_MEMORY;
+    }
+    return copy;
 }
 
 /* ============================================================================
@@ -332,6 +344,10 @@ static void parse_column_metadata(thrift_decoder_t* dec, carquet_arena_t* arena,
                 VALIDATE_COUNT(count, CARQUET_MAX_ENCODINGS, dec);
                 meta->num_encodings = count;
                 meta->encodings = carquet_arena_calloc(arena, count, sizeof(carquet_encoding_t));
+                if (count > 0 && !meta->encodings) {
+                    dec->status = CARQUET_ERROR_OUT_OF_MEMORY;
+                    return;
+                }
                 for (int32_t i = 0; i < count; i++) {
                     meta->encodings[i] = (carquet_encoding_t)thrift_read_i32(dec);
                 }
@@ -344,6 +360,10 @@ static void parse_column_metadata(thrift_decoder_t* dec, carquet_arena_t* arena,
                 VALIDATE_COUNT(count, CARQUET_MAX_PATH_ELEMENTS, dec);
                 meta->path_len = count;
                 meta->path_in_schema = carquet_arena_calloc(arena, count, sizeof(char*));
+                if (count > 0 && !meta->path_in_schema) {
+                    dec->status = CARQUET_ERROR_OUT_OF_MEMORY;
+                    return;
+                }
                 for (int32_t i = 0; i < count; i++) {
                     meta->path_in_schema[i] = arena_strdup_thrift(arena, dec);
                 }
@@ -369,6 +389,10 @@ static void parse_column_metadata(thrift_decoder_t* dec, carquet_arena_t* arena,
                 meta->num_key_value = count;
                 meta->key_value_metadata = carquet_arena_calloc(arena, count,
                     sizeof(parquet_key_value_t));
+                if (count > 0 && !meta->key_value_metadata) {
+                    dec->status = CARQUET_ERROR_OUT_OF_MEMORY;
+                    return;
+                }
                 for (int32_t i = 0; i < count; i++) {
                     thrift_read_struct_begin(dec);
                     thrift_type_t ft;
@@ -405,6 +429,10 @@ static void parse_column_metadata(thrift_decoder_t* dec, carquet_arena_t* arena,
                 meta->num_encoding_stats = count;
                 meta->encoding_stats = carquet_arena_calloc(arena, count,
                     sizeof(parquet_page_encoding_stats_t));
+                if (count > 0 && !meta->encoding_stats) {
+                    dec->status = CARQUET_ERROR_OUT_OF_MEMORY;
+                    return;
+                }
                 for (int32_t i = 0; i < count; i++) {
                     thrift_read_struct_begin(dec);
                     thrift_type_t ft;
@@ -511,6 +539,10 @@ static void parse_row_group(thrift_decoder_t* dec, carquet_arena_t* arena,
                 rg->num_columns = count;
                 rg->columns = carquet_arena_calloc(arena, count,
                     sizeof(parquet_column_chunk_t));
+                if (count > 0 && !rg->columns) {
+                    dec->status = CARQUET_ERROR_OUT_OF_MEMORY;
+                    return;
+                }
                 for (int32_t i = 0; i < count; i++) {
                     parse_column_chunk(dec, arena, &rg->columns[i]);
                 }
@@ -591,6 +623,10 @@ carquet_status_t parquet_parse_file_metadata(
                 metadata->num_schema_elements = count;
                 metadata->schema = carquet_arena_calloc(arena, count,
                     sizeof(parquet_schema_element_t));
+                if (count > 0 && !metadata->schema) {
+                    CARQUET_SET_ERROR(error, CARQUET_ERROR_OUT_OF_MEMORY, "Failed to allocate metadata");
+                    return CARQUET_ERROR_OUT_OF_MEMORY;
+                }
                 for (int32_t i = 0; i < count; i++) {
                     parse_schema_element(&dec, arena, &metadata->schema[i]);
                 }
@@ -607,6 +643,10 @@ carquet_status_t parquet_parse_file_metadata(
                 metadata->num_row_groups = count;
                 metadata->row_groups = carquet_arena_calloc(arena, count,
                     sizeof(parquet_row_group_t));
+                if (count > 0 && !metadata->row_groups) {
+                    CARQUET_SET_ERROR(error, CARQUET_ERROR_OUT_OF_MEMORY, "Failed to allocate metadata");
+                    return CARQUET_ERROR_OUT_OF_MEMORY;
+                }
                 for (int32_t i = 0; i < count; i++) {
                     parse_row_group(&dec, arena, &metadata->row_groups[i]);
                 }
@@ -620,6 +660,10 @@ carquet_status_t parquet_parse_file_metadata(
                 metadata->num_key_value = count;
                 metadata->key_value_metadata = carquet_arena_calloc(arena, count,
                     sizeof(parquet_key_value_t));
+                if (count > 0 && !metadata->key_value_metadata) {
+                    CARQUET_SET_ERROR(error, CARQUET_ERROR_OUT_OF_MEMORY, "Failed to allocate metadata");
+                    return CARQUET_ERROR_OUT_OF_MEMORY;
+                }
                 for (int32_t i = 0; i < count; i++) {
                     thrift_read_struct_begin(&dec);
                     thrift_type_t ft;
